@@ -22,6 +22,13 @@ Failures(ps, e, l) ==
   { [prop |-> p.prop, pred |-> p.name, trace |-> e.t, line |-> l,
      sig |-> p.name \o ":" \o e.sig] : p \in {q \in ps : ~q.ok} }
 
+\* Keep at most KeepPerSig records per signature (a known finding may fire thousands of times;
+\* an unbounded set makes validation quadratic).  Every failure is still counted by Count under
+\* the name "failed <sig>".
+KeepPerSig == 5
+Merge(viol, fs) ==
+  viol \cup {f \in fs : Cardinality({v \in viol : v.sig = f.sig}) < KeepPerSig}
+
 BaseName(n) == n   \* names are used as they are for counting
 
 Count(cnt, ps) ==
